@@ -127,6 +127,9 @@ Location locate_hunk(const std::vector<Line>& content, const Hunk& hunk, bool ig
 
     LineNumber context = std::max(patch_prefix_content, patch_suffix_content);
 
+    // Only context lines may be ignored by fuzz, never lines which are added or removed.
+    max_fuzz = std::min(max_fuzz, context);
+
     for (LineNumber fuzz = 0; fuzz <= max_fuzz; ++fuzz) {
 
         auto suffix_fuzz = std::max<LineNumber>(fuzz + patch_suffix_content - context, 0);
